@@ -56,7 +56,7 @@ def bystander():
 
 
 # wall-clock budget of ONE explored graph, seconds (the largest graph of the unchanged tree takes about 100 s in the thorough tier)
-SHARD_BUDGET_S = float(os.environ.get('VERIF_GRAPH_BUDGET_S', '900'))      # the runner sets 120 (quick) / 1500 (thorough)
+SHARD_BUDGET_S = float(os.environ.get('VERIF_GRAPH_BUDGET_S', '900'))      # the runner sets 45 (quick) / 1500 (thorough)
 
 
 class InterferenceError(Exception):
